@@ -104,22 +104,36 @@ def qmat(a):
     return C.q_list([float(x) for x in np.asarray(a, dtype=float).ravel()])
 
 
-def qorth_lit(cid, M, tol=1e-8):
-    """M: 2-D array with (claimed) orthonormal columns"""
-    M = np.asarray(M, dtype=float)
+def cqmat(a):
+    """complex entries as Gaussian rationals (re, im)"""
+    a = np.asarray(a).ravel()
+    return "[" + "; ".join(f"({C.q(float(np.real(z)))}, {C.q(float(np.imag(z)))})" for z in a) + "]" if a.size else "(@nil CQ)"
+
+
+def qorth_lit(cid, M, tol=None):
+    """M: 2-D array with (claimed) orthonormal columns; complex data go to the Gaussian-rational checker (M^H M)"""
+    M = np.asarray(M)
+    tol = tol_for(M, 1e-8) if tol is None else tol
+    if np.iscomplexobj(M):
+        return f"({cid}%N, (CQOrth {C.nat(M.shape[1])} {cqmat(M)} {C.q(tol)}), {QOK})"
     return f"({cid}%N, (QOrth {C.nat(M.shape[1])} {qmat(M)} {C.q(tol)}), {QOK})"
 
 
-def qtucker_lit(cid, X, core, factors, modes, tol_orth=1e-8):
-    """core = X x_m U_m^T over `modes`; the other modes get the identity"""
-    X = np.asarray(X, dtype=float)
+def qtucker_lit(cid, X, core, factors, modes, tol_orth=None):
+    """core = X x_m U_m^H over `modes`; the other modes get the identity"""
+    X = np.asarray(X)
+    cx = np.iscomplexobj(X) or np.iscomplexobj(core)
     full = [np.eye(d) for d in X.shape]
     for m, f in zip(modes, factors):
-        full[m] = np.asarray(f, dtype=float)
+        full[m] = np.asarray(f)
     ranks = [f.shape[1] for f in full]
-    tol_proj = 1e-8 * max(1.0, float(np.max(np.abs(X))) if X.size else 1.0)
-    fl = "[" + "; ".join(qmat(f) for f in full) + "]"
-    return (f"({cid}%N, (QTucker {C.nat_list(list(X.shape))} {C.nat_list(ranks)} {qmat(X)} {qmat(core)} {fl} {C.q(tol_orth)} {C.q(tol_proj)}), {QOK})")
+    single = tol_for(X) > TOL
+    tol_orth = (2e-5 if single else 1e-8) if tol_orth is None else max(tol_orth, 2e-5 if single else 0)
+    tol_proj = (2e-5 if single else 1e-8) * max(1.0, float(np.max(np.abs(X))) if X.size else 1.0)
+    mat = cqmat if cx else qmat
+    fl = "[" + "; ".join(mat(f.astype(complex) if cx else f) for f in full) + "]"
+    op = "CQTucker" if cx else "QTucker"
+    return (f"({cid}%N, ({op} {C.nat_list(list(X.shape))} {C.nat_list(ranks)} {mat(X)} {mat(core)} {fl} {C.q(tol_orth)} {C.q(tol_proj)}), {QOK})")
 
 
 def qcpnorm_lit(cid, w, fs, wout, fout):
@@ -152,7 +166,8 @@ def q_cases_for(case, out, cid0):
     elif kind == "DParafac2":
         for p_ in out[2]:
             lits.append(lambda cid, p_=p_: qorth_lit(cid, p_))
-    elif kind == "DTucker" and not (kw["init"] == "random" and kw["n_iter_max"] == 0) and prod(s) <= 24 and case["seed"] % 4 == 0:
+    elif kind == "DTucker" and not (kw["init"] == "random" and kw["n_iter_max"] == 0) and prod(s) <= 24 and \
+            (case["seed"] % 4 == 0 or str(kw.get("data", "")).startswith("complex")):
         X = data_tensor(s, case["seed"], kind=kw.get("data", "normal"))
         core, factors = out
         lits.append(lambda cid: qtucker_lit(cid, X, core, factors, list(range(len(s)))))
@@ -337,6 +352,9 @@ def data_tensor(shape, seed, positive=False, kind="normal"):
             v = r.randint(1, 4, size=d).astype(float)
             x = x * v.reshape([-1 if j == k else 1 for j in range(len(shape))])
         return x
+    if kind in ("complex", "complex64"):
+        x = r.standard_normal(shape) + 1j * r.standard_normal(shape)
+        return x.astype(np.complex64) if kind == "complex64" else x
     x = r.random_sample(shape) + 0.1 if positive else r.standard_normal(shape)
     return x
 
@@ -482,13 +500,14 @@ def gen_cases(tier, rng):
         for sp in tk_specs:
             for init, nit in (("svd", 0), ("svd", 2), ("random", 1)) + ((("random", 0),) if not quick else ()):
                 yield dict(kind="DTucker", shape=s, spec=sp, kw=dict(init=init, n_iter_max=nit))
-        for data in ("lowrank", "zero"):
+        for data in ("lowrank", "zero", "complex", "complex64"):
             if quick and rng.random() < 0.5:
                 continue
             yield dict(kind="DTt", shape=s, spec=rng.choice([1, 2, 3]), kw=dict(data=data))
             yield dict(kind="DTr", shape=s, spec=1, kw=dict(mode=rng.randrange(n), data=data))
             yield dict(kind="DTucker", shape=s, spec=rng.choice([1, 2, 3]), kw=dict(init="svd", n_iter_max=2, data=data))
         yield dict(kind="DTucker", shape=s, spec=rng.choice([1, 2, 3]), kw=dict(init=rng.choice(["svd", "random"]), n_iter_max=6, tol=1e10))
+        yield dict(kind="DTucker", shape=s, spec=rng.choice([1, 2, 3, 5]), kw=dict(init=rng.choice(["svd", "random"]), n_iter_max=rng.choice([0, 1, 2]), tol=0, data="complex"))
         if n >= 3 or not quick:
             for sp in [1, 2, 4, "same", 0.5]:
                 for fn in ("parafac", "non_negative_parafac", "non_negative_parafac_hals"):
@@ -505,6 +524,8 @@ def gen_cases(tier, rng):
         for sp in [1, 2, 4, "same", 0.5] + [tuple(l) for l in tt_rank_lists(len(s) // 2, rng, 2)]:
             yield dict(kind="DTtm", shape=s, spec=sp, kw={})
     yield dict(kind="DTtm", shape=(2, 3, 2), spec=2, kw={})
+    for s4 in ((2, 3, 3, 2), (2, 2, 2, 2)):
+        yield dict(kind="DTtm", shape=s4, spec=2, kw=dict(data="complex"))
     for _ in range(12 if quick else 80):
         I = rng.choice([1, 2, 3]); K = rng.choice([2, 3, 4])
         sl = tuple((rng.choice([2, 3, 4, 5]), K) for _ in range(I))
@@ -637,9 +658,14 @@ ENTRY = {"VCp": "tensorly.cp_tensor.validate_cp_rank", "VTucker": "tensorly.tuck
 TOL = 1e-8
 
 
+def tol_for(x, base=TOL):
+    """single precision data (float32 / complex64) cannot meet a 1e-8 residual"""
+    return 2e-5 if np.asarray(x).dtype in (np.float32, np.complex64) else base
+
+
 def orthonormal_cols(M, tol=TOL):
     M = np.asarray(M)
-    G = M.T @ M
+    G = M.conj().T @ M                 # M^H M (conjugate transpose: complex data)
     return float(np.max(np.abs(G - np.eye(G.shape[0])))) if G.size else 0.0
 
 
@@ -667,6 +693,7 @@ def pred_structure(case, shapes, out):
     """structure predicates on one decomposition output; returns (message, predicate) or None"""
     import tensorly as tl
     kind, s, spec, kw = case["kind"], case["shape"], case["spec"], case["kw"]
+    TOLX = 2e-5 if kw.get("data") == "complex64" else TOL
     if kind in ("DTt", "DTr", "DTrAls"):
         fs = out.factors
         n = len(s)
@@ -696,7 +723,7 @@ def pred_structure(case, shapes, out):
                 return f"TT ranks {got}, expected {exp}", "C08_tt_ranks"
             for k, f in enumerate(fs[:-1]):
                 e = orthonormal_cols(f.reshape(-1, f.shape[2]))
-                if e > TOL:
+                if e > TOLX:
                     return f"TT core {k} not left-orthogonal (residual {e:.2e})", "C08_tt_left_orthogonal"
         if kind == "DTr":
             import tensorly.tr_tensor as trm
@@ -707,12 +734,12 @@ def pred_structure(case, shapes, out):
             m = kw["mode"]
             f0 = fs[m]   # first computed core: (r0, s, r1), U reshaped (s, r0, r1) then transposed
             e = orthonormal_cols(np.transpose(f0, (1, 0, 2)).reshape(f0.shape[1], -1))
-            if e > TOL:
+            if e > TOLX:
                 return f"TR first core not orthonormal (residual {e:.2e})", "C08_tr_first_orthonormal"
             for j in range(1, n - 1):
                 f = fs[(m + j) % n]
                 e = orthonormal_cols(f.reshape(-1, f.shape[2]))
-                if e > TOL:
+                if e > TOLX:
                     return f"TR core {(m + j) % n} not left-orthogonal (residual {e:.2e})", "C08_tr_left_orthogonal"
         if kind == "DTrAls":
             import tensorly.tr_tensor as trm
@@ -751,13 +778,13 @@ def pred_structure(case, shapes, out):
         if svd_like:
             for k, f in enumerate(factors):
                 e = orthonormal_cols(f)
-                if e > TOL:
+                if e > TOLX:
                     return f"Tucker factor {k} not orthonormal (residual {e:.2e})", "C08_tucker_orthonormal"
             proj = X
             for k, f in enumerate(factors):
-                proj = np.moveaxis(np.tensordot(f.T, proj, axes=(1, k)), 0, k)
+                proj = np.moveaxis(np.tensordot(np.conj(f).T, proj, axes=(1, k)), 0, k)
             e = float(np.max(np.abs(proj - core))) / max(1.0, float(np.max(np.abs(X))))
-            if e > TOL:
+            if e > TOLX:
                 return f"Tucker core is not the projection of the data (residual {e:.2e})", "C08_tucker_core_projection"
     if kind == "DCp":
         import tensorly.cp_tensor as cpm
@@ -774,7 +801,7 @@ def pred_structure(case, shapes, out):
             if p.shape != (s[i][0], r):
                 return f"projection {i} has shape {p.shape}", "C08_parafac2_shapes"
             e = orthonormal_cols(p)
-            if e > TOL:
+            if e > TOLX:
                 return f"PARAFAC2 projection {i} not orthonormal (residual {e:.2e})", "C08_parafac2_orthonormal"
             Bi = p @ B
             G = Bi.T @ Bi
@@ -787,10 +814,10 @@ def pred_structure(case, shapes, out):
 
 # --- Tucker / partial_tucker: every stopping path (tol falsy = cap exit, tol huge = convergence exit), fixed factors, mask, SVD methods
 def project(X, factors, modes):
-    """X x_m U_m^T over the listed modes"""
+    """X x_m U_m^H over the listed modes (conjugate transpose)"""
     out = X
     for m, f in zip(modes, factors):
-        out = np.moveaxis(np.tensordot(f.T, out, axes=(1, m)), 0, m)
+        out = np.moveaxis(np.tensordot(np.conj(f).T, out, axes=(1, m)), 0, m)
     return out
 
 
@@ -810,7 +837,18 @@ def tucker_cases(tier, rng):
                             k = n if modes is None else len(modes)
                             rank = [rng.choice([1, 2, 3, 5]) for _ in range(k)]
                             yield dict(entry=entry, shape=s, modes=modes, rank=rank, init=init, tol=tol, n_iter_max=nit, seed=rng.randrange(10 ** 6),
-                                       svd=rng.choice(["truncated_svd", "truncated_svd", "symeig_svd", "randomized_svd"]), fixed=None, mask=False)
+                                       svd=rng.choice(["truncated_svd", "truncated_svd", "symeig_svd", "randomized_svd"]), fixed=None, mask=False,
+                                       dtype=rng.choice(["float64", "float64", "complex128", "complex128", "complex64"]))
+        # complex data on the shortest runs (n_iter_max 0 with the SVD init, 1) and both exits
+        for entry in ("tucker", "partial_tucker"):
+            for dtype in ("complex128", "complex64"):
+                for init, nit, tol in (("svd", 0, 0), ("svd", 1, None), ("random", 1, 0), ("svd", 4, 1e10), ("random", 3, 1e-5)):
+                    if quick and rng.random() < 0.4:
+                        continue
+                    modes = None if entry == "tucker" else rng.choice([None, [0], [n - 1, 0]])
+                    k = n if modes is None else len(modes)
+                    yield dict(entry=entry, shape=s, modes=modes, rank=[rng.choice([1, 2, 3, 5]) for _ in range(k)], init=init, tol=tol, n_iter_max=nit,
+                               seed=rng.randrange(10 ** 6), svd="truncated_svd", fixed=None, mask=False, dtype=dtype)
         # fixed factors (orthonormal, user supplied) and missing values
         for fixed in ([0], [n - 1], list(range(n - 1))):
             for nit in (1, 3):
@@ -830,13 +868,15 @@ def run_tucker_case(tc):
     from tensorly.decomposition._tucker import partial_tucker
     r = np.random.RandomState(tc["seed"])
     s = tuple(tc["shape"])
-    X = r.standard_normal(s)
+    dtype = tc.get("dtype", "float64")
+    cx = dtype.startswith("complex")
+    X = (r.standard_normal(s) + (1j * r.standard_normal(s) if cx else 0)).astype(dtype)
     kw = dict(n_iter_max=tc["n_iter_max"], tol=tc["tol"], svd=tc["svd"], random_state=tc["seed"])
     init = tc["init"]
     fixed_in = None
     if init == "user":
-        fs = [np.linalg.qr(r.standard_normal((d, k)))[0] for d, k in zip(s, tc["rank"])]
-        init = (r.standard_normal(tc["rank"]), fs)
+        fs = [np.linalg.qr(r.standard_normal((d, k)) + (1j * r.standard_normal((d, k)) if cx else 0))[0].astype(dtype) for d, k in zip(s, tc["rank"])]
+        init = ((r.standard_normal(tc["rank"]) + (1j * r.standard_normal(tc["rank"]) if cx else 0)).astype(dtype), fs)
         fixed_in = [np.array(f, copy=True) for f in fs]
     if tc["mask"]:
         kw["mask"] = (r.random_sample(s) > 0.15).astype(float)
@@ -871,7 +911,11 @@ def pred_tucker_case(tc, st, out, X, fixed_in):
         return f"core has shape {core.shape}, expected {tuple(want_core)}", "C08_tucker_shapes"
     if not (np.all(np.isfinite(core)) and all(np.all(np.isfinite(f)) for f in factors)):
         return "non-finite output", "C08_tucker_finite"
-    tol = 1e-6 if tc["svd"] == "symeig_svd" else TOL        # eigh of the Gram matrix squares the condition number
+    tol = max(1e-6 if tc["svd"] == "symeig_svd" else TOL, tol_for(X))        # eigh of the Gram matrix squares the condition number
+    if tc["svd"] == "symeig_svd" and tol_for(X) > TOL:
+        tol = 2e-3                                      # single precision through eigh of the Gram matrix
+    if any(np.asarray(f).dtype != X.dtype for f in factors) or np.asarray(core).dtype != X.dtype:
+        return f"dtype of the result {[str(np.asarray(f).dtype) for f in factors]} / {np.asarray(core).dtype} differs from the data's {X.dtype}", "C08_tucker_dtype"
     for m, f in zip(modes, factors):
         e = orthonormal_cols(f)
         if e > tol:
@@ -883,7 +927,7 @@ def pred_tucker_case(tc, st, out, X, fixed_in):
     if not tc["mask"]:
         # core = projection of the data onto the RETURNED factors (with a mask the data are re-imputed: not observable)
         e = float(np.max(np.abs(project(X, factors, modes) - core))) / max(1.0, float(np.max(np.abs(X))))
-        if e > TOL:
+        if e > tol_for(X):
             return f"core is not the projection of the data onto the returned factors (residual {e:.2e})", "C08_tucker_core_projection"
     return None
 
@@ -961,6 +1005,12 @@ def run_norm_case(nc):
     if nc.get("fixed"):
         kw["fixed_modes"] = list(nc["fixed"])
     for k, v in (nc.get("opts") or {}).items():
+        if k == "complex":               # complex data (parafac only): X and a user initialisation become complex
+            X = (X + 1j * r.standard_normal(s) * 0.3).astype(v)
+            if isinstance(kw["init"], tuple):
+                kw["init"] = (kw["init"][0].astype(v), [(f + 1j * r.random_sample(f.shape)).astype(v) for f in kw["init"][1]])
+                init_tensor = cp_full(*kw["init"])
+            continue
         kw[k] = (r.random_sample(s) > 0.15).astype(float) if k == "mask" else v
     states, fired = [], [False]
     cb_stop = nc.get("cb_stop")
@@ -1146,18 +1196,19 @@ def pred_norm(nc, res):
     w, fs = out.weights, out.factors
     if not (np.all(np.isfinite(w)) and all(np.all(np.isfinite(f)) for f in fs)):
         return "non-finite output", "C08_norm_finite"
+    tolx = tol_for(fs[0])
     if nc["normalize_factors"]:
         for k, f in enumerate(fs):
             nrm = np.linalg.norm(f, axis=0)
             for r_, v in enumerate(nrm):
-                if abs(v - 1) > TOL and not (v == 0 and w[r_] == 0):
+                if abs(v - 1) > tolx and not (v == 0 and w[r_] == 0):
                     return f"column {r_} of factor {k} has norm {v!r} (normalize_factors=True)", "C08_norm_unit_columns"
-        if np.any(w < 0):
-            return "negative weight after normalisation", "C08_norm_scale_in_weights"
+        if np.any(np.real(w) < 0) or np.any(np.imag(w) != 0):
+            return "negative / non-real weight after normalisation", "C08_norm_scale_in_weights"
         if last is not None:
             T0, T1 = cp_full(*last), cp_full(w, fs)
             e = float(np.max(np.abs(T0 - T1))) / max(1e-300, float(np.max(np.abs(T0))))
-            if e > 1e-9:
+            if e > max(1e-9, 50 * tolx if tolx > TOL else 0):
                 return f"normalised output represents another tensor than the last iterate (rel {e:.2e}): scale not carried by the weights", "C08_norm_scale_in_weights"
     else:
         if not np.all(w == 1):
@@ -1166,7 +1217,7 @@ def pred_norm(nc, res):
         # no sweep ran: whatever moved between weights and factors, the represented tensor is still the user's
         T0, T1 = res["init_tensor"], cp_full(w, fs)
         e = float(np.max(np.abs(T0 - T1))) / max(1e-300, float(np.max(np.abs(T0))))
-        if e > 1e-9:
+        if e > max(1e-9, 50 * tolx if tolx > TOL else 0):
             return f"no sweep ran but the output represents another tensor than the user initialisation (rel {e:.2e}): scale lost", "C08_norm_scale_in_weights"
     return None
 
@@ -1180,7 +1231,8 @@ def cp_normalize_cases(tier, rng):
         R = rng.choice([1, 2, 3])
         yield dict(shape=shape, rank=R, seed=rng.randrange(10 ** 6), weights=rng.choice(["none", "ones", "generic", "signed"]),
                    zero_col=rng.choice([None, None, (rng.randrange(order), rng.randrange(R))]), integer=rng.random() < 0.3,
-                   tiny_col=rng.choice([None, None, (rng.randrange(order), rng.randrange(R))]))
+                   tiny_col=rng.choice([None, None, (rng.randrange(order), rng.randrange(R))]),
+                   cdtype=rng.choice([None, None, "complex128", "complex64"]))
 
 
 def cp_normalize_inputs(cc):
@@ -1194,6 +1246,9 @@ def cp_normalize_inputs(cc):
         fs[k][:, c] = (r.random_sample(fs[k].shape[0]) + 0.5) * 1e-6
     w = {"none": None, "ones": np.ones(cc["rank"]), "generic": r.random_sample(cc["rank"]) + 0.5,
          "signed": r.standard_normal(cc["rank"]) * (r.random_sample(cc["rank"]) < 0.8)}[cc["weights"]]
+    if cc.get("cdtype"):
+        fs = [(f + 1j * np.where(f == 0, 0.0, r.standard_normal(f.shape))).astype(cc["cdtype"]) for f in fs]      # zero columns stay zero
+        w = None if w is None else (w * np.exp(1j * r.random_sample(cc["rank"]))).astype(cc["cdtype"])           # complex weights: absorbed into factor 0
     return w, fs
 
 
@@ -1214,15 +1269,16 @@ def pred_cp_normalize(cc, st, out, before):
         return f"shapes changed: {[f.shape for f in fs]}", "C08_cp_normalize_shapes"
     if not (np.all(np.isfinite(w)) and all(np.all(np.isfinite(f)) for f in fs)):
         return "non-finite output (a zero column must stay zero, its scale is taken as 1)", "C08_cp_normalize_unit_columns"
+    t12 = 1e-12 if tol_for(fs[0]) == TOL else 2e-5
     for k, f in enumerate(fs):
         for c, v in enumerate(np.linalg.norm(f, axis=0)):
-            if abs(v - 1) > 1e-12 and not (v == 0 and w[c] == 0):
+            if abs(v - 1) > t12 and not (v == 0 and w[c] == 0):
                 return f"column {c} of factor {k} has norm {v!r} (weight {w[c]!r})", "C08_cp_normalize_unit_columns"
-    if np.any(w < 0):
-        return f"negative weight {w.tolist()}", "C08_cp_normalize_weights_nonneg"
+    if np.any(np.real(w) < 0) or np.any(np.imag(w) != 0):
+        return f"negative / non-real weight {w.tolist()}", "C08_cp_normalize_weights_nonneg"
     after = cp_full(w, fs)
     e = float(np.max(np.abs(after - before))) / max(1.0, float(np.max(np.abs(before))))
-    if e > 1e-12:
+    if e > t12:
         return f"the normalised CP tensor represents another tensor (residual {e:.2e}): scale not carried by the weights", "C08_cp_normalize_represents"
     return None
 
@@ -1239,6 +1295,9 @@ def run_tucker_normalize_case(cc):
         k, c = cc["tiny_col"]
         fs[k][:, min(c, ranks[k] - 1)] = (r.random_sample(fs[k].shape[0]) + 0.5) * 1e-6
     core = r.standard_normal(ranks)
+    if cc.get("cdtype"):
+        fs = [(f + 1j * np.where(f == 0, 0.0, r.standard_normal(f.shape))).astype(cc["cdtype"]) for f in fs]
+        core = (core + 1j * r.standard_normal(ranks)).astype(cc["cdtype"])
     before = tucker_to_tensor((core, fs))
     st, out = C.call_impl(tucker_normalize, (core.copy(), [f.copy() for f in fs]), timeout=60)
     return st, out, before, ranks
@@ -1254,13 +1313,14 @@ def pred_tucker_normalize(cc, st, out, before, ranks):
         return f"shapes changed: {[f.shape for f in fs]}, core {core.shape}", "C08_tucker_normalize_shapes"
     if not (np.all(np.isfinite(core)) and all(np.all(np.isfinite(f)) for f in fs)):
         return "non-finite output (a zero column must stay zero, its scale is taken as 1)", "C08_tucker_normalize_unit_columns"
+    t12 = 1e-12 if tol_for(fs[0]) == TOL else 2e-5
     for k, f in enumerate(fs):
         for c, v in enumerate(np.linalg.norm(f, axis=0)):
-            if abs(v - 1) > 1e-12 and v != 0:
+            if abs(v - 1) > t12 and v != 0:
                 return f"column {c} of factor {k} has norm {v!r}", "C08_tucker_normalize_unit_columns"
     after = tucker_to_tensor((core, fs))
     e = float(np.max(np.abs(after - before))) / max(1.0, float(np.max(np.abs(before))))
-    if e > 1e-12:
+    if e > t12:
         return f"the normalised Tucker tensor represents another tensor (residual {e:.2e}): scale not carried by the core", "C08_tucker_normalize_represents"
     return None
 
@@ -1341,7 +1401,7 @@ def norm_cases(tier, rng):
                                normalize_factors=nf, callback=(fn == "parafac" and rng.random() < 0.5))
     # option combinations that reshape the sweep (orthogonalisation, line search, ridge term, missing values, HALS variants)
     optsets = [("parafac", dict(orthogonalise=True)), ("parafac", dict(orthogonalise=2)), ("parafac", dict(linesearch=True)),
-               ("parafac", dict(l2_reg=0.1)), ("parafac", dict(mask=True)), ("parafac", dict(sparsity=0.2)), ("parafac", dict(sparsity=3, mask=True)), ("parafac", dict(linesearch=True, orthogonalise=True, l2_reg=0.01)),
+               ("parafac", dict(l2_reg=0.1)), ("parafac", dict(mask=True)), ("parafac", {"complex": "complex128"}), ("parafac", {"complex": "complex64"}), ("parafac", dict(sparsity=0.2)), ("parafac", dict(sparsity=3, mask=True)), ("parafac", dict(linesearch=True, orthogonalise=True, l2_reg=0.01)),
                ("non_negative_parafac", dict(mask=True)), ("non_negative_parafac_hals", dict(nn_modes=[0])),
                ("non_negative_parafac_hals", dict(sparsity_coefficients=[0.05, None, 0.05]))]     # (exact=True costs ~20 s per run)
     for fn, opts in optsets:
@@ -1454,7 +1514,7 @@ def _run(chk, rng):
             chk.sample({"entry": ENTRY[kind], "shape": list(s), "rank": str(spec), "options": {k: str(v_) for k, v_ in kw.items()},
                         "outcome": st, "observed_shapes": [list(x) for x in shapes] if shapes else str(v)[:100]})
         if st == "ok" and out is not None:
-            if kind in ("DTt", "DTr", "DParafac2", "DTucker") and cid % (16 if tier == "quick" else 10) == 0:
+            if kind in ("DTt", "DTr", "DParafac2", "DTucker") and (cid % (16 if tier == "quick" else 10) == 0 or (str(kw.get("data", "")).startswith("complex") and cid % 3 == 0)):
                 for mk in q_cases_for(case, out, cid):
                     qid = len(cases)
                     cases.append(mk(qid))
@@ -1501,9 +1561,9 @@ def _run(chk, rng):
             timeouts += str(out) == "timeout"; skipped += str(out) != "timeout"
             continue
         chk.count(key=("tucker", tc["entry"], tc["shape"], tuple(tc["modes"] or ()), tuple(tc["rank"]), tc["init"], str(tc["tol"]), tc["n_iter_max"], tc["svd"],
-                       tuple(tc["fixed"] or ()), tc["mask"]))
+                       tuple(tc["fixed"] or ()), tc["mask"], tc.get("dtype", "float64")))
         chk.hist("tucker_exit", "cap (tol falsy)" if not tc["tol"] else "tol set")
-        chk.hist("svd_method", tc["svd"])
+        chk.hist("svd_method", tc["svd"]); chk.hist("tucker_dtype", tc.get("dtype", "float64"))
         if not tc["mask"] and (tc["entry"] == "partial_tucker" or tc["fixed"] is not None):
             cid = len(cases)
             n_ = len(tc["shape"])
@@ -1514,10 +1574,11 @@ def _run(chk, rng):
             obs = [shp(out[0])] + [shp(f) for f in out[1]] if st == "ok" else None
             cases.append(f"({cid}%N, {opl}, {shapes_lit(st, obs)})")
             meta.append(dict(kind="DTuckerX", shape=tc["shape"], spec=tc["rank"], kw={k: v for k, v in tc.items() if k not in ("shape", "rank")}))
-        if st == "ok" and not tc["mask"] and prod(tc["shape"]) <= 36 and tc["seed"] % (3 if tier == "quick" else 2) == 0:      # ~0.3 s of exact arithmetic each
+        cx_ = str(tc.get("dtype", "")).startswith("complex")
+        if st == "ok" and not tc["mask"] and prod(tc["shape"]) <= (24 if cx_ else 36) and tc["seed"] % (3 if tier == "quick" else 2) == 0:      # ~0.3 s of exact arithmetic each
             qid = len(cases)
             modes_ = list(range(len(tc["shape"]))) if tc["modes"] is None else list(tc["modes"])
-            cases.append(qtucker_lit(qid, X, out[0], out[1], modes_, tol_orth=(1e-6 if tc["svd"] == "symeig_svd" else 1e-8)))
+            cases.append(qtucker_lit(qid, X, out[0], out[1], modes_, tol_orth=(2e-3 if (tc["svd"] == "symeig_svd" and tol_for(X) > TOL) else 1e-6 if tc["svd"] == "symeig_svd" else None)))
             meta.append(dict(kind="Q", shape=tc["shape"], spec=tc["rank"], kw={k: v for k, v in tc.items() if k not in ("shape", "rank")}))
             chk.hist("q_checks", tc["entry"])
         r = pred_tucker_case(tc, st, out, X, fixed_in)
@@ -1570,7 +1631,7 @@ def _run(chk, rng):
             continue
         chk.count(key=("cp_normalize", cc["shape"], cc["rank"], cc["weights"], cc["zero_col"] is not None), nontrivial=prod(cc["shape"]) * cc["rank"] > 1)
         chk.hist("entry_point", "cp_normalize")
-        if st == "ok" and prod(cc["shape"]) <= 60:
+        if st == "ok" and prod(cc["shape"]) <= 60 and not cc.get("cdtype"):
             qid = len(cases)
             cases.append(qcpnorm_lit(qid, *cp_normalize_inputs(cc), out[0], out[1]))
             meta.append(dict(kind="Q", shape=cc["shape"], spec=cc["rank"], kw={k: v for k, v in cc.items() if k not in ("shape", "rank")}))
